@@ -194,7 +194,8 @@ def random_statement(rng, rec):
     if k < 0.40:
         ch = rng.choice([32, 219, 65, 7, 13, 10, 12, 11, 28, 31])
         # (a line end scrolls the whole window: keep the runs of those short, each scroll costs milliseconds)
-        n = rng.choice([1, 3, 30]) if ch in (13, 10, 31) else rng.choice([1, w, 2 * w, 255])
+        # (and every BEL waits for the beep to finish: one at most)
+        n = 1 if ch == 7 else rng.choice([1, 3, 30]) if ch in (13, 10, 31) else rng.choice([1, w, 2 * w, 255])
         return 'PRINT STRING$(%d,%d)%s' % (n, ch, rng.choice(['', ';']))
     if k < 0.48:
         return rng.choice(['CLS', 'CLS', 'CLS 0', 'CLS 1', 'CLS 2'])
@@ -297,7 +298,7 @@ def run(ctx):
     # 2. code -> spec
     rec = Recorder(ctx)
     rng = ctx.rng
-    nhist = ctx.pick(12, 200)
+    nhist = ctx.pick(24, 200)
     adapters = list(ADAPTER_MODES)
     for hno in range(nhist):
         random_history(rec, rng, adapters[hno % len(adapters)], rng.randint(*ctx.pick((20, 55), (25, 70))))
